@@ -105,16 +105,19 @@ def uint (s : List Char) : Option (Nat × List Char) :=
   let (v, n, rest) := digits s 0 0
   if n = 0 ∨ v ≥ 4294967296 then none else some (v, rest)
 
+/-- optional sign -/
+def splitSign : List Char → Bool × List Char
+  | '-' :: t => (true, t)
+  | '+' :: t => (false, t)
+  | s => (false, s)
+
 /-- `int_`: optional sign, digits, fails on overflow -/
 def int (s : List Char) : Option (Int × List Char) :=
-  let (neg, s') := match s with
-    | '-' :: t => (true, t)
-    | '+' :: t => (false, t)
-    | _ => (false, s)
-  let (v, n, rest) := digits s' 0 0
-  if n = 0 then none
-  else if neg then (if v > 2147483648 then none else some (-(v : Int), rest))
-  else (if v > 2147483647 then none else some ((v : Int), rest))
+  let p := splitSign s
+  let d := digits p.2 0 0
+  if d.2.1 = 0 then none
+  else if p.1 then (if d.1 > 2147483648 then none else some (-(d.1 : Int), d.2.2))
+  else (if d.1 > 2147483647 then none else some ((d.1 : Int), d.2.2))
 
 def lower (c : Char) : Char := if 'A' ≤ c && c ≤ 'Z' then Char.ofNat (c.toNat + 32) else c
 
@@ -149,10 +152,8 @@ def scaled (neg : Bool) (digits : Nat) (k : Int) (rest : List Char) : Option (Va
 /-- `double_` (`real_policies<double>`: sign, leading / trailing dot allowed,
 `nan`, `nan(...)`, `inf`, `infinity`) -/
 def real (s : List Char) : Option (Val × List Char) :=
-  let (neg, s1) := match s with
-    | '-' :: t => (true, t)
-    | '+' :: t => (false, t)
-    | _ => (false, s)
+  let neg := (splitSign s).1
+  let s1 := (splitSign s).2
   let (ip, nI, s2) := digits s1 0 0
   if nI = 0 then
     -- nan / inf, else leading dot
